@@ -430,3 +430,57 @@ R.contract(
 # create_test (settings merge, seed, phases) is verified in C13's module; its clauses about the user's limits / about a test being built at all belong to this property too
 # (finding F05b): the same job runs as part of this check.
 SHARED_JOBS = [("C13", "schemathesis.generation.hypothesis.builder:create_test")]
+
+
+# ------------------------------------------------------------------------------------------------- ScenarioRecorder: what is recorded stays recorded (the report is built from it)
+_Checks = lambda: DictOf(optional={"c1": ListOf(Opq("CheckNodeRef"), [0, 1, 2], widen=False), "c2": ListOf(Opq("CheckNodeRef"), [1], widen=False)})
+_RecS = lambda: Obj(RECD + "ScenarioRecorder", label=Str, cases=DictOf(optional={"c1": Opq("CaseNodeRef"), "c2": Opq("CaseNodeRef")}), checks=_Checks(),
+                    interactions=DictOf(optional={"c1": Opq("InteractionRef"), "c2": Opq("InteractionRef")}))
+EARLIER_KEPT = ("all(k in self.checks and length(self.checks[k]) >= length(old(deep(self.checks))[k]) and all(self.checks[k][i] is old(deep_refs(self.checks))[k][i] for i in range(length(old(deep(self.checks))[k]))) "
+                "for k in old(deep(self.checks))) and all(k in old(deep(self.checks)) or k == case_id for k in self.checks) and "
+                "all(length(self.checks[k]) == length(old(deep(self.checks))[k]) for k in old(deep(self.checks)) if k != case_id)")
+R.spec_funcs["deep"] = lambda it, v: it.B._deepcopy(v, {})
+R.spec_funcs["deep_refs"] = lambda it, v: {k: list(x) for k, x in v.items()}
+R.contract(
+    RECD + "ScenarioRecorder.record_check_failure",
+    prop="C05",
+    args={"self": _RecS(), "name": Str, "case_id": Choice("c1", "c2", "c3"), "code_sample": Str, "failure": Opq("FailureRef")},
+    raises=[],
+    ensures={
+        # no failure is lost: it is appended to the checks of ITS case - a FAILURE node with the failure and its code sample - and nothing recorded before is dropped or reordered
+        "appended_to_the_checks_of_its_case": "case_id in self.checks and self.checks[case_id][-1].name == name and self.checks[case_id][-1].status.name == 'FAILURE' and "
+                                              "self.checks[case_id][-1].failure_info.failure is failure and self.checks[case_id][-1].failure_info.code_sample == code_sample and "
+                                              "length(self.checks[case_id]) == (length(old(deep(self.checks))[case_id]) if case_id in old(deep(self.checks)) else 0) + 1",
+        "everything_recorded_before_is_kept_in_order": EARLIER_KEPT,
+        "cases_and_interactions_untouched": "length(self.cases) == old(length(self.cases)) and length(self.interactions) == old(length(self.interactions))",
+    },
+    bounded_note="recorders with up to 2 cases and up to 2 earlier checks",
+)
+R.contract(
+    RECD + "ScenarioRecorder.record_check_success",
+    prop="C05",
+    args={"self": _RecS(), "name": Str, "case_id": Choice("c1", "c2", "c3")},
+    raises=[],
+    ensures={
+        "appended_as_a_passed_check": "case_id in self.checks and self.checks[case_id][-1].name == name and self.checks[case_id][-1].status.name == 'SUCCESS' and self.checks[case_id][-1].failure_info is None and "
+                                      "length(self.checks[case_id]) == (length(old(deep(self.checks))[case_id]) if case_id in old(deep(self.checks)) else 0) + 1",
+        "everything_recorded_before_is_kept_in_order": EARLIER_KEPT,
+    },
+    bounded_note="recorders with up to 2 cases and up to 2 earlier checks",
+)
+R.contract(
+    RECD + "ScenarioRecorder.record_case",
+    prop="C05",
+    args={"self": _RecS(), "parent_id": OneOf(NoneT, Choice("c1", "c2")), "transition": OneOf(NoneT, Opq("TransitionRef")), "case": Obj("spec:RecordedCase", id=Choice("c1", "c3"))},
+    raises=[],
+    ensures={
+        # C18: the history the lifecycle checks read: the case under ITS id, with the parent and the transition it was derived by
+        "the_case_is_recorded_under_its_id_with_its_parent": "self.cases[case.id].value is case and same_p(self.cases[case.id].parent_id, parent_id) and same_t(self.cases[case.id].transition, transition)",
+        "other_cases_untouched": "all(k in self.cases for k in old(dict(self.cases))) and all(self.cases[k] is old(dict(self.cases))[k] for k in old(dict(self.cases)) if k != case.id) and "
+                                 "length(self.cases) == old(length(self.cases)) + (0 if case.id in old(dict(self.cases)) else 1)",
+    },
+    bounded_note="recorders with up to 2 cases",
+)
+R.spec_funcs["same_p"] = lambda it, a, b: (a is None and b is None) if (a is None or b is None) else a == b
+R.spec_funcs["same_t"] = lambda it, a, b: a is b
+
